@@ -25,6 +25,7 @@ PROP = {
 }
 
 ADV = bytes([0x81, 0x8D, 0x8F, 0x90, 0x9D, 0x00, 0x41, 0xFF])
+SMALL_INTS = [1, 1, 2, 3, 4, 7, 8, 16, 64, 65, 72, 100, 256, 288, 352, 640, 1000, 4096, 4160]
 
 
 def selfcheck():
@@ -44,8 +45,9 @@ def filler_bytes(kind, seed, n):
             out.append(((h >> 20) % 94) + 33)
         elif kind == "adversarial":
             out.append(ADV[(h >> 20) % len(ADV)])
-        elif kind == "small-int":    # every 32-bit word becomes a small positive integer (looks like a count)
-            out.append(1 + (s + i // 4) % 3 if i % 4 == 0 else 0)
+        elif kind == "small-int":    # every 32-bit word becomes a small positive integer (looks like a count, a size or an offset)
+            v = SMALL_INTS[specs.mix(s, i // 4) % len(SMALL_INTS)]
+            out.append((v >> (8 * (i % 4))) & 0xFF)
         elif kind == "float-special":  # words that are NaN / inf when read as float32
             out.append((0x00, 0x00, 0xC0 if (s + i // 4) % 2 else 0x80, 0x7F if (s + i // 4) % 3 else 0xFF)[i % 4])
         elif kind == "negative-int":
@@ -61,6 +63,17 @@ def scramble(data, spans, kind, seed, base=0):
     """overwrite don't-care positions; returns (bytes, {class: changed count}).
     kind 'x' overwrites all of them; kind 'partial:x' decides per 4-byte word (seeded) whether it is overwritten or
     left as it is, so that e.g. exactly one of two neighbouring pad words is non-zero."""
+    if kind == "lone-word":
+        words = [(s_ + 4 * j, c) for s_, e_, c in spans if c in reftdf.DONTCARE for j in range((e_ - s_) // 4)]
+        b = bytearray(data)
+        if not words:
+            return bytes(b), {}
+        pos, c = words[seed % len(words)]
+        v = SMALL_INTS[(seed // len(words)) % len(SMALL_INTS)]
+        new = v.to_bytes(4, "little")
+        ch = {c: 1} if bytes(b[pos - base:pos - base + 4]) != new else {}
+        b[pos - base:pos - base + 4] = new
+        return bytes(b), ch
     partial = kind.startswith("partial:")
     base_kind = kind.split(":", 1)[1] if partial else kind
     b = bytearray(data)
@@ -122,7 +135,7 @@ def run_blocks(ctx, case):
 
 def blocks_strategy(tier):
     fills = st.tuples(st.sampled_from(["random", "random", "ff", "text", "adversarial", "adversarial", "small-int", "small-int", "float-special", "negative-int", "wide", "wide",
-                                         "partial:small-int", "partial:small-int", "partial:random", "partial:ff", "partial:wide"]),
+                                         "partial:small-int", "partial:small-int", "partial:random", "partial:ff", "partial:wide", "lone-word", "lone-word"]),
                       st.integers(0, 2 ** 32 - 1)).map(list)
     return st.sampled_from(specs.TYPES).flatmap(lambda t: st.fixed_dictionaries({
         "spec": specs.SPEC[t](tier, 0), "hints": specs.HINTS, "source": st.sampled_from(["lib", "ref"]), "fill": fills}))
@@ -229,7 +242,61 @@ def run_container(ctx, case):
     ctx.case(case, bool(changed), labels=[f"source={case['source']}", f"fill={kind}", f"N={case['N']}"] + [f"changed:header/{c}" for c in changed])
 
 
+def enum_lone(tier):
+    """every don't-care word of the header and of the table of two fixed images, one at a time, with each plausible small value"""
+    from .c14 import _minimal
+
+    ev = {"t": "events", "format": 1, "startTime": 0, "events": [{"label": "e", "type": 0, "values": [0x3F800000]}]}
+    d3 = dict(_minimal("data3D"))
+    for n, specs_ in ((3, [ev, d3]), (14, [ev, d3, _minimal("emg")])):
+        blocks = [{"spec": s_, "comment": "c", "cdate": 1, "mdate": 2, "adate": 3} for s_ in specs_]
+        # header: 2 + 5 reserved words; per entry: the pad word and the first two words of the comment tail
+        nwords = 7 + n * 3
+        for w in range(nwords):
+            for vi in range(len(SMALL_INTS)):
+                yield {"N": n, "blocks": blocks, "dates": [5, 6, 7], "source": "generated", "fill": ["lone-header-word", w * 100 + vi]}
+
+
+def run_lone(ctx, case):
+    """container-level: ONE reserved / pad / tail word set, everything else as written"""
+    w, vi = divmod(case["fill"][1], 100)
+    n = case["N"]
+    blocks = [{"type": reftdf.TYPE_CODE[b["spec"]["t"]], "format": b["spec"]["format"], "payload": reftdf.encode(b["spec"]),
+               "comment": b["comment"], "cdate": b["cdate"], "mdate": b["mdate"], "adate": b["adate"]} for b in case["blocks"]]
+    image = bytearray(reftdf.build_image(n, blocks, dates=case["dates"]))
+    if w < 2:
+        pos = 24 + 4 * w
+    elif w < 7:
+        pos = 44 + 4 * (w - 2)
+    else:
+        e, k = divmod(w - 7, 3)
+        base = 64 + 288 * e
+        pos = base + 28 if k == 0 else base + 32 + 4 * k   # pad word | comment bytes 4..7 / 8..11 (tail of a 1-char comment)
+    scr = bytearray(image)
+    scr[pos:pos + 4] = SMALL_INTS[vi % len(SMALL_INTS)].to_bytes(4, "little")
+    d = env.fresh_dir()
+    try:
+        views = []
+        for name, img in (("orig", image), ("scr", scr)):
+            path = os.path.join(d, name + ".tdf")
+            with open(path, "wb") as f:
+                f.write(bytes(img))
+            ok, v = ctx.must(lambda: _table_view(path), f"container-lone/read-{name}", f"reading a well-formed file ({name}) with one don't-care word set to {SMALL_INTS[vi % len(SMALL_INTS)]}")
+            if not ok:
+                return
+            views.append(v)
+        dd = specs.first_diff(views[1], views[0])
+        if dd:
+            ctx.fail(f"container-lone/content-changed-{specs.diff_class(dd[0])}", f"file: {dd[0]} reads {str(dd[1])[:60]!r} after setting the don't-care word at byte {pos} "
+                                                                                  f"to {SMALL_INTS[vi % len(SMALL_INTS)]}, {str(dd[2])[:60]!r} before")
+    finally:
+        env.rmdir(d)
+    ctx.case(case, True, labels=[f"N={n}", "lone-word:" + ("header" if w < 7 else "entry")])
+
+
 SUBS = [
+    Sub("container-lone-word", run_lone, kind="enum", enumerate=enum_lone, shards=(8, 16),
+        rule="two fixed images (N=3, N=14): each reserved header word, each entry pad word and the first comment-tail words set ONE AT A TIME to each of 19 plausible small values; finite, enumerated"),
     Sub("blocks", run_blocks, strategy=blocks_strategy, budget=(1800, 40000), shards=(4, 16),
         rule="all nine block types, library-written and reference-encoded; every don't-care byte overwritten"),
     Sub("capture-blocks", run_capture, strategy=capture_strategy, budget=(24, 400), shards=(4, 16),
